@@ -10,6 +10,8 @@ mir, srcp, h = run.prepare_mir()
 mod = importlib.import_module(pid.lower())
 spec = [s for s in mod.specs(tier) if s.name == name][0]
 cfg = dict(noops=[r"metrics", r"tracing", r"ExecuteMetricsCollector", r"Histogram"], cap=3); cfg.update(spec.cfg)
+if cfg.get("extra_mir_pkgs"):
+    cfg["extra_mir"] = [open(run.prepare_extra_mir(p_)).read() for p_ in cfg["extra_mir_pkgs"]]
 tr = translate.Translator(mir, srcdefs.Sources(srcp, extra_roots=spec.cfg.get("extra_src", [])), cfg)
 H = spec.build(tr)
 out = f"/tmp/gen_{pid}_{name}.c"
